@@ -55,10 +55,10 @@ class _MutDefs(Defs):
 
 
 class Table:
-    def __init__(self, F, name, extra_reads=None, stop_at=None):
+    def __init__(self, F, name, extra_reads=None, stop_at=None, paths=True, cast_kinds=False):
         """extra_reads: regex of further callees to number as reads; stop_at: predicate on (block, terminator) - path conditions are
         only computed up to the first such call in reverse post-order (for bodies whose interesting part is a prefix)"""
-        self.F = F; self.name = name; self.extra_reads = extra_reads
+        self.F = F; self.name = name; self.extra_reads = extra_reads; self.cast_kinds = cast_kinds
         self.b = F.body(name); self.g = cfg_of(self.b)
         self.names = self.b.get('debug', {})
         self.muts = self._find_muts()            # local -> [(bb, call terminator, arg index)]
@@ -76,6 +76,15 @@ class Table:
             for d in ds:
                 if d[0] == 'setdiscr' or (d[0] == 'assign' and d[3]['lhs']['proj']) or (d[0] == 'call' and d[3]['dest']['proj']):
                     self.opaque.add(l)
+        # loop-carried locals (defined both inside and outside one natural loop: accumulators, sticky flags): their value at a use
+        # depends on the iteration, so they stay symbolic
+        self.loopvar = set()
+        for head, body in self.g.loops().items():
+            for l, ds in self.D.defs.items():
+                if l == 0: continue
+                inside = [d for d in ds if d[0] != 'mut' and d[1] in body]
+                outside = [d for d in ds if d[0] != 'mut' and d[1] not in body]
+                if inside and (outside or 1 <= l <= self.b['argc']): self.loopvar.add(l)
         self.reads = []          # [(bb, callee short, width expr)]
         self.read_of_bb = {}
         self._index_reads()
@@ -90,7 +99,7 @@ class Table:
             hits = [self.order[bb] for bb, t in self.g.calls() if bb in self.order and stop_at(bb, t)]
             if not hits: raise Unanalysable('%s: stop marker not found' % name)
             self.limit = min(hits)
-        self.pc(0)       # path conditions are computed eagerly, outermost: nothing else may trigger them half-way through a value resolution
+        if paths: self.pc(0)       # path conditions are computed eagerly, outermost: nothing else may trigger them half-way through a value resolution
 
     # ---- mutable borrows handed to calls
     def _find_muts(self):
@@ -120,11 +129,14 @@ class Table:
         class Ctx:
             def __enter__(self_):
                 self_.old = dataflow.CALL_TAGGER
+                self_.oldk = dataflow.CAST_KINDS
+                dataflow.CAST_KINDS = tbl.cast_kinds
                 self_.oldd = dataflow._defs_cache.get(id(tbl.b))
                 dataflow.CALL_TAGGER = lambda name, bb, t: ('%s#%d' % (name, tbl.read_of_bb[bb])) if bb in tbl.read_of_bb else name
                 dataflow._defs_cache[id(tbl.b)] = tbl.D
             def __exit__(self_, *a):
                 dataflow.CALL_TAGGER = self_.old
+                dataflow.CAST_KINDS = self_.oldk
                 if self_.oldd is not None: dataflow._defs_cache[id(tbl.b)] = self_.oldd
                 else: dataflow._defs_cache.pop(id(tbl.b), None)
         return Ctx()
@@ -441,7 +453,7 @@ class Table:
         l = m[1]; proj = m[2] if len(m) > 2 else ()
         if l in self.flagsets and l not in self.opaque:
             return self.cases(self._subst(e, m, ('fs', l, proj, at)), at, budget)
-        if l in self.opaque:
+        if l in self.opaque or l in self.loopvar:
             return self.cases(self._subst(e, m, ('opq', l, proj)), at, budget)
         out = []
         for c, v in self.local_cases(l, at):
@@ -625,12 +637,22 @@ class Table:
             if ca[0] == 'c' and isinstance(ca[1], int):
                 f = {'Eq': ca[1] == cc[1], 'Ne': ca[1] != cc[1], 'Lt': ca[1] < cc[1], 'Le': ca[1] <= cc[1], 'Gt': ca[1] > cc[1], 'Ge': ca[1] >= cc[1]}[op]
                 return TRUE if f else FALSE
-            if cc[1] in (0, 1) and op in ('Eq', 'Ne'):
+            if cc[1] in (0, 1) and op in ('Eq', 'Ne') and self._is_bool(ca):
                 inner_true = (op == 'Eq') == (cc[1] == 1)
                 return self._norm(ca, [1] if inner_true else [0], False, [0, 1], t, bb)
         txt = '%s(%s, %s)' % (e[1], self.show(e[2]), self.show(e[3]))
         want = truth
         return one(('A', txt, want))
+
+    @staticmethod
+    def _is_bool(e):
+        if e[0] == 'op' and e[1] in ('Eq', 'Ne', 'Lt', 'Le', 'Gt', 'Ge'): return True
+        if e[0] == 'un' and e[1] == 'Not': return Table._is_bool(e[2])
+        if e[0] == 'call':
+            n = e[1].split('#')[0]
+            return n.endswith('::contains') or n.endswith('::is_some') or n.endswith('::is_none') or n.endswith('::is_empty') or n.endswith('::is_disposable') \
+                or n.endswith('::is_inter') or n.endswith('::is_intra')
+        return False
 
     def _call_truth(self, e, n, truth, bb):
         if n.endswith('::contains') and len(e) == 4:
